@@ -65,8 +65,8 @@ def one_update_against_oracle(ctx, d, ekf, sensor, key, pt, z, reading_obj, tag,
     if key not in ekf.innovations or key not in ekf.sensor_prediction_uncertainty:
         ctx.fail(f"update-innovation:not-recorded:{tag}", "after the update the filter holds no innovation / innovation covariance for this sensor", case)
         return
-    y_rec = np.asarray(ekf.innovations[key], dtype=float)
-    S_rec = np.asarray(ekf.sensor_prediction_uncertainty[key], dtype=float)
+    y_rec = eh.recorded(ekf.innovations, key)
+    S_rec = eh.recorded(ekf.sensor_prediction_uncertainty, key)
     if S_rec.shape != (m, m) or not eh.mat_close(S_rec, want["S"]):
         ctx.fail(f"update-S:{tag}", f"recorded innovation covariance {S_rec.tolist()} differs from H P H^T + Q = {[[float(v) for v in r] for r in want['S']]}", case)
     elif y_rec.shape != (m, 1) or not eh.mat_close(y_rec, [[v] for v in want["y"]]):
@@ -294,8 +294,8 @@ def run(ctx, focus="C05"):
                 tag = f"m={'1' if m == 1 else '>=2'}"
                 gx = fk.by_name(res.state)
                 sc = max([abs(float(v)) for v in want["x"]] + [1.0])
-                S_rec = np.asarray(ekf.sensor_prediction_uncertainty[key], dtype=float)
-                y_rec = np.asarray(ekf.innovations[key], dtype=float)
+                S_rec = eh.recorded(ekf.sensor_prediction_uncertainty, key)
+                y_rec = eh.recorded(ekf.innovations, key)
                 if S_rec.shape != (m, m) or not eh.mat_close(S_rec, want["S"]):
                     ctx.fail(f"update-S:{tag}", f"recorded innovation covariance {S_rec.tolist()} differs from H P H^T + Q = {[[float(v) for v in r] for r in want['S']]}", case)
                 elif y_rec.shape != (m, 1) or not eh.mat_close(y_rec, [[v] for v in want["y"]]):
